@@ -81,7 +81,7 @@ def build(variant):
 
 
 def lexrun(binp, cases_path, out_path, events=False, chars=True, threads=1, all_on_all=False,
-           timeout=1800):
+           timeout=1800, reuse=False):
     cmd = [binp, "--in", cases_path, "--out", out_path]
     if events:
         cmd.append("--events")
@@ -91,6 +91,8 @@ def lexrun(binp, cases_path, out_path, events=False, chars=True, threads=1, all_
         cmd += ["--threads", str(threads)]
     if all_on_all:
         cmd.append("--all-on-all")
+    if reuse:
+        cmd.append("--reuse")
     t0 = time.time()
     try:
         p = sh(cmd, stdout=subprocess.PIPE, stderr=subprocess.STDOUT, text=True, timeout=timeout)
